@@ -1,8 +1,9 @@
 (* C19 - luamin keeps the title and author comments that PICO-8 reads.
    Same model, reference lexer and hypothesis [lexer_agrees] (= C07) as Properties/C01.v. *)
+From PV Require Proofs.LexerChunk.
 From PV Require Import Base.Prelude Spec.LuaLex Instances.HoldsC02 Instances.HoldsC01
   Generated.T_lexer Model.NameFactory Model.Lexer Model.TokWriters
-  Proofs.LuaLexFacts Proofs.TokWritersProofs Proofs.MinifyRelex Proofs.MinifyRelations Proofs.MinifyEndToEnd.
+  Proofs.LuaLexFacts Proofs.TokWritersProofs Proofs.MinifyRelex Proofs.MinifyRelations Proofs.MinifyEndToEnd Proofs.MinifyCount.
 
 (* the first two comments that precede any code ([leading_comments]) are written verbatim, each
    followed by a line break, at the very top of the text ([header_text] is a prefix); under the
@@ -43,6 +44,12 @@ Theorem C19_end_to_end : forall cfg src ss, Forall byte src -> spec_toks src = S
   exists out, luamin_text cfg [src] = Ok out /\ holds_C01 src out = true /\ holds_C19 src out = true.
 Proof. exact luamin_end_to_end. Qed.
 Print Assumptions C19_end_to_end.
+
+Theorem C19_lines : forall cfg ls out,
+  Forall LexerChunk.ends_lf (removelast ls) -> Forall byte (concat ls) -> luamin_text cfg ls = Ok out ->
+  holds_C01 (concat ls) out = true /\ holds_C19 (concat ls) out = true.
+Proof. exact luamin_lines_all. Qed.
+Print Assumptions C19_lines.
 
 (* what the title / byline rule of `stats` reads from a text that starts with the header *)
 Theorem C19_titles : forall hc out rest, after_header hc out = Some rest ->
